@@ -683,6 +683,33 @@ APALACHE = {
 }
 
 
+def tlaps_c05():
+    """Machine-checked proof (TLAPS) that one add_record step, as a relation on record sets over uninterpreted strings
+    (spec/StepRel.tla), preserves one-owner-per-prefix and the freshness of the prefix map -- for converters of ANY size.
+    mc/MC_Incr.tla (Prop_Bridge) checks that the operational specification's steps are such steps."""
+    import re
+    import shutil
+    import subprocess
+    d = tlc.scratch("tlaps")
+    try:
+        for fn in ("StepRel.tla", os.path.join("tlaps", "C05_Step.tla")):
+            shutil.copy(os.path.join(tlc.SPEC, fn), d)
+        t = time.time()
+        try:
+            p = subprocess.run(["tlapm", "C05_Step.tla"], cwd=d, stdout=subprocess.PIPE, stderr=subprocess.STDOUT, text=True, timeout=900)
+        except (subprocess.TimeoutExpired, FileNotFoundError) as e:
+            return {"module": "spec/tlaps/C05_Step.tla", "outcome": f"not run ({type(e).__name__}; not relied upon)"}
+        m = re.search(r"All (\d+) obligations? proved", p.stdout)
+        if not m:
+            raise MachineryError("TLAPS no longer proves spec/tlaps/C05_Step.tla (the step relation or the proof was changed)\n" + p.stdout[-1200:])
+        return {"module": "spec/tlaps/C05_Step.tla", "theorems": ["Step: Inv /\\ Next => OneOwner(recs')", "StepIndex: Inv /\\ Next => pm' = PMOf(recs')"],
+                "obligations_proved": int(m.group(1)), "wall_s": round(time.time() - t, 1),
+                "bound": "none (any number of records, uninterpreted strings and case folding)",
+                "bridge": "Prop_Bridge on mc/MC_Incr.tla: every add step of Conv!AddRecord is a step of StepRel"}
+    finally:
+        shutil.rmtree(d, ignore_errors=True)
+
+
 def apalache(pid, tier):
     """Symbolic check with Apalache (spec/apalache/*.tla): strings are unbounded integers, only sizes are bounded."""
     import re
@@ -896,6 +923,7 @@ def check(pid, tier, seed):
                     lines.append(f"VIOLATION property={pid} replay={path}   # clause {key} in trace {tid} recorded from the repository's own tests")
     apa = apa_future.result() if apa_future else None
     apa_pool.shutdown()
+    proof = tlaps_c05() if pid == "C05" else None
     n_ans = sum(len(r["a"]) for t in batch["traces"] for e in t["events"] for r in e["pt"] + e["ppt"])
     n_events = sum(len(t["events"]) for t in batch["traces"])
     kinds = {}
@@ -913,7 +941,7 @@ def check(pid, tier, seed):
                 "distinct operation lists executed on the implementation (each creates at least one converter and is followed by a probe table)",
         "exhaustive": all(not m["violated"] for m in models),
         "models": models, "trace_events": n_events, "event_kinds": kinds,
-        "simulation": sim_stats, "apalache_symbolic_check": apa, "repository_tests_as_driver": repo, "behaviours_from_tlc": n_hist, "spec_signature_coverage": STRATA.get(pid), "behaviours_from_simulation": len(sim_ops), "behaviours_random": n_plain - n_hist - n_cex - len(sim_ops),
+        "simulation": sim_stats, "apalache_symbolic_check": apa, "tlaps_proof": proof, "repository_tests_as_driver": repo, "behaviours_from_tlc": n_hist, "spec_signature_coverage": STRATA.get(pid), "behaviours_from_simulation": len(sim_ops), "behaviours_random": n_plain - n_hist - n_cex - len(sim_ops),
         "behaviours_hazard_strings_and_scale": len(oplists) - n_plain,
         "concretisations": CMAPS[tier], "trace_validation": st,
         "other_clauses_failed": other, "known_findings": [k["id"] for k in known],
